@@ -48,6 +48,9 @@ def cases(tier, seed):
             ["fresh", "override_other", "repeat", "override_other", "repeat"]]
     for i in range(10 if tier == "quick" else 200):
         out.append(dict(t="history", seq=seqs[i % len(seqs)], mode=["tan", "tan", "toast"][i % 3], seed=R.randrange(1 << 30), par=R.choice([1, 2])))
+    # a TOAST pyramid more than nine levels deep (arc-second pixels), fresh and reused: level numbers have two digits
+    for i in range(2 if tier == "quick" else 12):
+        out.append(dict(t="history", seq=[["fresh", "repeat"], ["fresh", "repeat", "override", "repeat"]][i % 2], mode="toast_deep", seed=R.randrange(1 << 30), par=R.choice([1, 2])))
     return out
 
 
@@ -393,7 +396,8 @@ def case_history(spec, workdir):
         kw = {}
     else:
         m = rng.normal(size=(60, 80)).astype(np.float32)
-        paths = [fitsgen.write_piece(os.path.join(ind, "t.fits"), m, (0, 0, 80, 60), (40, 30), scale=0.5, crval=(R.uniform(0, 360), R.uniform(-60, 60)), bottoms_up=True)]
+        sc = 0.5 if spec["mode"] == "toast" else R.choice([1.3e-3, 6e-4])
+        paths = [fitsgen.write_piece(os.path.join(ind, "t.fits"), m, (0, 0, 80, 60), (40, 30), scale=sc, crval=(R.uniform(0, 360), R.uniform(-60, 60)), bottoms_up=True)]
         kw = dict(tiling_method=TilingMethod.TOAST)
     out = os.path.join(workdir, "out") if (R.random() < 0.7 or "override_other" in spec["seq"]) else None
     probs = []
@@ -477,7 +481,8 @@ def case_history(spec, workdir):
         levels_on_disk = [int(dn) for dn in os.listdir(out) if dn.isdigit() and any(f.endswith(".fits") for _r, _d, fs in os.walk(os.path.join(out, dn)) for f in fs)]
         if levels_on_disk and max(levels_on_disk) != int(iset.get("TileLevels")):
             probs.append(("tilelevels-vs-disk:" + step, "call %d (%s): TileLevels=%s but the deepest populated layer on disk is %d" % (calls, step, iset.get("TileLevels"), max(levels_on_disk))))
-    r = dict(counters={"histories": 1, "tile_fits_calls": calls, "history_" + spec["mode"]: 1}, nontrivial=calls >= 2, sample=dict(spec=spec))
+    deepest = max([int(dn) for dn in os.listdir(out) if dn.isdigit()] or [0]) if out and os.path.isdir(out) else 0
+    r = dict(counters={"histories": 1, "tile_fits_calls": calls, "history_" + spec["mode"]: 1, "max_history_depth": deepest}, nontrivial=calls >= 2, sample=dict(spec=spec, deepest=deepest))
     if probs:
         keys = sorted({k for k, _ in probs})
         r.update(status="violation", key="+".join(keys)[:140], detail="; ".join(t for _, t in probs[:5]))
@@ -497,6 +502,8 @@ def finish(agg, tier):
     wf = ["study_png", "study_jpg", "study_fits", "study_fitswcs", "allsky", "multi_tan", "wwtl", "tile_fits_tan", "tile_fits_wcs", "tile_fits_toast", "pipeline"]
     wf.append("api_study")
     miss = [w for w in wf if c.get("wf_" + w, 0) < 1]
+    if c.get("max_history_depth", 0) < 10:
+        miss.append("a reused pyramid with two-digit level numbers")
     if miss or c.get("template_positions", 0) < 10000 or c.get("histories", 0) < 3 or c.get("tiles_matched", 0) < 50:
         return dict(inconclusive="not reached: %s %s" % (miss, {k: c.get(k) for k in ("template_positions", "histories", "tiles_matched")}))
     return {}
